@@ -1,4 +1,5 @@
 import Percival.Proofs.HeapEx
+import Percival.Proofs.HeapStep
 /-!
 # C13 — pointer heap and timer queue are correct priority queues with stable handles
 
@@ -327,5 +328,95 @@ example : (ttrace TSt.init exTOps).map (·.2) =
      .rel none, .tmin (some (9, 1))] := by decide
 example : taccepts TMSt.init [(.add 1 5 0 101, .ok), (.add 2 3 0 102, .ok), (.get 9 0, .rel (some (1, 101)))] = false := by
   decide
+
+
+
+/-! ## 6. The functions the executables run
+
+`pmodel heap` applies `Model.HeapStep.stepOp` to every parsed line and `pmodel heapmon` applies
+`Spec.PQ.monStepX` to every (operation, implementation's answer) pair; `Driver/Heap.lean` and
+`Driver/Heapmon.lean` contain nothing but the parsers and printers.  `stepOp` keeps the caller's keys and the
+"position most recently reported" in hash maps and cuts the notification log after every operation; the
+theorems of this section say that this is the model of sections 1–5 and the monitor of `Spec/PQMon.lean`
+in another representation, so that everything above is a statement about what is compared with the C code. -/
+
+open Percival.Model.HeapStep Percival.Proofs.HeapStep
+
+/-- One step of the heap half of the executable is one step of `HeapRun.step` on the state it stands for
+(`mk f L`: the array of `f`, the log `L`, the keys `keyFn f.keys`, the live list of `f`), as long as the hash
+map `f.pos` agrees with "last position reported in `L`": same answer, corresponding states again, and the
+part of the line after ` | ` shows the model's array and the notifications the step put on the log. -/
+theorem hstep_refines (f : HSt) (L : List (Nat × Nat)) (hp : PosOk f L) (op : Op) :
+    ∃ L', (step (mk f L) op).1 = mk (hstep f op).1 L' ∧ PosOk (hstep f op).1 L' ∧
+      (hstep f op).2.ans = (step (mk f L) op).2 ∧
+      ∀ x, (hstep f op).2.l2 = some x → x.a = (step (mk f L) op).1.h.a ∧ ∃ L0, L' = x.notes ++ L0 :=
+  hstep_mk f L hp op
+
+example : PosOk {} [] ∧ mk {} [] = ⟨Heap.empty, keyFn {}, []⟩ := ⟨fun e => by simp [lastIn], rfl⟩
+
+/-- the same for the timer-queue half and `HeapRun.tstep` -/
+theorem tstep_refines (f : HeapStep.TSt) (L : List (Nat × Nat)) (hp : TPosOk f L) (op : TOp) :
+    ∃ L', (tstep (mkT f L) op).1 = mkT (tstepX f (.op op)).1 L' ∧ TPosOk (tstepX f (.op op)).1 L' ∧
+      (tstepX f (.op op)).2.ans = .ans (tstep (mkT f L) op).2 ∧
+      ∀ x, (tstepX f (.op op)).2.l2 = some x → x.a = (tstep (mkT f L) op).1.q.h.a :=
+  tstep_mk f L hp op
+
+example : TPosOk {} [] ∧ (mkT {} []).live = [] := ⟨fun e => by simp [lastIn], rfl⟩
+
+/-- the final drain of a timer-queue case prints the pointers that repeated `getptr` on the model's queue releases -/
+theorem tdrain_refines (f : HeapStep.TSt) (L : List (Nat × Nat)) (sec usec : Int) :
+    (tstepX f (.drain sec usec)).2.ans =
+      .drained ((tqDrain sec usec (mkT f L).q.h.a.size (mkT f L).q).map (·.2)) :=
+  tdrain_mk f L sec usec
+
+example : (tstepX {} (.drain 5 0)).2.ans = .drained [] := rfl
+
+/-- The monitor executable's step is `monStep` / `tmonStepI` on the monitor state its hash maps stand for. -/
+theorem monitor_exec_is_spec (s : FMSt) (t : FTMSt) (op : Op) (a : Ans) (top : TOpI) (ta : TAnsI) :
+    ((monStepF s op a).1.abs = (monStep s.abs op a).1 ∧ (monStepF s op a).2 = (monStep s.abs op a).2) ∧
+    ((tmonStepIF t top ta).1.abs = (tmonStepI t.abs top ta).1 ∧ (tmonStepIF t top ta).2 = (tmonStepI t.abs top ta).2) :=
+  ⟨monStepF_abs s op a, tmonStepIF_abs t top ta⟩
+
+example : (monStep (FMSt.abs {}) (.add 1 5) .ok).2 = true ∧ (monStep (FMSt.abs {}) (.add 1 5) .skip).2 = false :=
+  ⟨by decide, by decide⟩
+
+/-- **Soundness of the monitor for the model, end to end.**  For every sequence of protocol operations
+(heap and timer-queue operations mixed), feeding what `pmodel heap` prints before ` | ` to `pmodel heapmon`
+yields `ok` on every line — under `OpsOk`: a timer is added with a pointer that no live timer stores (the
+implementation's `getptr` line shows only the pointer), and a timer-queue drain is made at a time not
+earlier than any live timer (else it cannot release everything, which the monitor demands of a drain). -/
+theorem run_ops_accepted (ops : List XOp) (hok : OpsOk {} ops) :
+    acceptsX {} ((ops.map XOp.toI).zip ((runOps {} ops).2.map XOut.l1)) = true :=
+  (runOps_rel ops {} {} xrel_init hok).1
+
+example : OpsOk {} [.h (.add 1 5), .h (.add 2 3), .h .getmin, .h (.del 1), .h .drain] :=
+  ⟨trivial, trivial, trivial, trivial, trivial, trivial⟩
+example : OpsOk {} [.t (.op (.add 1 5 0 101)), .t (.op .getmin), .t (.drain 9 0)] := by
+  refine ⟨fun r hr => (by cases hr), trivial, ?_, trivial⟩
+  intro r hr
+  have : r = 1 := by simpa [stepOp, tstepX, tfinish] using hr
+  subst this
+  simp [stepOp, tstepX, tfinish, TimerQueue.add, TimerQueue.key, TimerQueue.lookup, TimerQueue.tvKey, HeapStep.TSt.q]
+
+/-- **Invariant of the executable's state.**  After every operation sequence: the ids in the heap array are
+pairwise distinct, the hash map `pos` gives the slot of every element (so the handle operations act on the
+element meant), parent ≤ child on every edge under the current keys, and the array holds exactly the live ids;
+the same for the timer queue, whose every live record has a time. -/
+theorem run_ops_invariant (ops : List XOp) (hok : OpsOk {} ops) :
+    let f := (runOps {} ops).1
+    ((∀ i j x : Nat, f.h.a[i]? = some x → f.h.a[j]? = some x → i = j) ∧
+     (∀ i x : Nat, f.h.a[i]? = some x → f.h.pos[x]? = some i) ∧
+     (∀ i c q : Nat, 0 < i → f.h.a[i]? = some c → f.h.a[(i-1)/2]? = some q → keyFn f.h.keys q ≤ keyFn f.h.keys c) ∧
+     f.h.a.toList.Perm f.h.live) ∧
+    ((∀ i j x : Nat, f.t.a[i]? = some x → f.t.a[j]? = some x → i = j) ∧
+     (∀ i x : Nat, f.t.a[i]? = some x → f.t.pos[x]? = some i) ∧
+     (∀ i c q : Nat, 0 < i → f.t.a[i]? = some c → f.t.a[(i-1)/2]? = some q →
+        TimerQueue.key f.t.recs q ≤ TimerQueue.key f.t.recs c) ∧
+     (∀ r ∈ f.t.live, ∃ x, TimerQueue.lookup f.t.recs r = some x) ∧
+     f.t.a.toList.Perm f.t.live) := by
+  obtain ⟨m', hh, ht⟩ := (runOps_rel ops {} {} xrel_init hok).2
+  exact ⟨hrel_facts _ _ hh, trel_facts _ _ ht⟩
+
+example : OpsOk {} [.h (.add 1 5), .h (.inc 1 7), .h .delmin] := ⟨trivial, trivial, trivial, trivial⟩
 
 end Percival.C13
